@@ -24,6 +24,25 @@ CHECKS = {
         design="5 C02", technique="Lean 4 proof over generated kernels + differential correspondence"),
 }
 
+CHECKS["C06"] = dict(
+    text="Theorems for all T,K>=1, j<T, k<K: np.argmax model returns a global maximiser; the flat "
+         "candidate index (loop order read from the source) decodes to rotation k and label j through "
+         "Model.align, loader.align_multi_templates and LoaderGroup.align_multi_templates; uint8 label "
+         "range; (max, step) rotation ranges contain the identity. The per-candidate optimiser is a "
+         "parameter; a stub model with prescribed scores drives the real entry points.",
+    design="5 C06", technique="Lean 4 proof over generated decode kernels + stub-model correspondence")
+CHECKS["C08"] = dict(
+    text="Theorems for every box shape (odd/even/non-cubic), every matrix R and every pair of plane "
+         "normals: the three index grids equal fftfreq(n)*n; each mask entry point keeps bin i iff "
+         "(n0.R f_i)(n1.R f_i) <= 0; DC kept; k -> -k symmetry off Nyquist; tilt-model selection and "
+         "range validation. cos/sin of the tilt angles are inputs (trusted).",
+    design="5 C08", technique="Lean 4 proof over generated grid/scaling kernels + bin-wise mask correspondence")
+CHECKS["C16"] = dict(
+    text="Theorems for every axis length d>=1: Butterworth grid = (fftfreq/cutoff)^2, gain formula, "
+         "weight(0)=1, Hermitian symmetry at all bins, weight in (0,1], half-spectrum limit, output "
+         "shape = input shape, exact identity guard, both copies identical. FFTs are parameters.",
+    design="5 C16", technique="Lean 4 proof over generated Butterworth kernels + weight/shape correspondence")
+
 NOT_YET = {}
 
 
